@@ -53,8 +53,12 @@ def _leaves(stmts: List[ast.stmt]) -> bool:
     return bool(stmts) and isinstance(stmts[-1], (ast.Continue, ast.Break, ast.Return, ast.Raise))
 
 
-def path_conditions(stmts: List[ast.stmt], node: ast.AST) -> Optional[List[str]]:
-    """conditions (conjunction) under which `node` is executed when the statement list is entered; None if not inside"""
+def path_conditions(stmts: List[ast.stmt], node: ast.AST, exits: Optional[List[str]] = None) -> Optional[List[str]]:
+    """
+    Conditions (conjunction) under which `node` is executed when the statement list is entered; None if not inside.  Guards
+    passed on the way that leave by break / return / raise (they end the whole loop, not only the iteration) are appended to
+    `exits` when given.
+    """
     acc: List[str] = []
     for st in stmts:
         inside = any(x is node for x in ast.walk(st))
@@ -63,26 +67,32 @@ def path_conditions(stmts: List[ast.stmt], node: ast.AST) -> Optional[List[str]]
                 if any(x is node for x in ast.walk(st.test)):
                     return acc
                 for branch, pol in ((st.body, True), (st.orelse, False)):
-                    r = path_conditions(branch, node)
+                    r = path_conditions(branch, node, exits)
                     if r is not None:
                         return acc + atoms(st.test, pol) + r
                 return acc
             # guard clause: the rest of the block runs only if the leaving branch was not taken
             if _leaves(st.body) and not st.orelse:
                 acc = acc + atoms(st.test, False)
+                if exits is not None and not isinstance(st.body[-1], ast.Continue):
+                    exits.extend(atoms(st.test, True))
             elif st.orelse and _leaves(st.orelse) and not _leaves(st.body):
                 acc = acc + atoms(st.test, True)
+                if exits is not None and not isinstance(st.orelse[-1], ast.Continue):
+                    exits.extend(atoms(st.test, False))
+            elif exits is not None and any(isinstance(x, (ast.Break, ast.Return)) for x in ast.walk(st)):
+                exits.append(f"inside `if {norm(st.test)}`")
             continue
         if inside:
             for fld in ("body", "orelse", "finalbody"):
                 b = getattr(st, fld, None)
                 if isinstance(b, list) and b and isinstance(b[0], ast.stmt):
-                    r = path_conditions(b, node)
+                    r = path_conditions(b, node, exits)
                     if r is not None:
                         return acc + r
             if isinstance(st, ast.Try):
                 for h in st.handlers:
-                    r = path_conditions(h.body, node)
+                    r = path_conditions(h.body, node, exits)
                     if r is not None:
                         return acc + r
             return acc
